@@ -52,8 +52,27 @@ class Roles:
 
     @property
     def reset_node(self):
-        return self._get("reset_node", lambda: A.method(
-            self.fx, "reset_node", NS, ["&mut state::NodeState", "u64"], "()", hint="reset_node"))
+        def find():
+            try:
+                return A.method(self.fx, "reset_node", NS, ["&mut state::NodeState", "u64"], "()", hint="reset_node")
+            except A.AnchorLost:
+                # the reset may have been inlined into the receiver: a whole overwrite `*self = NodeState::new(..)` inside recv_apply.
+                # The role then designates recv_apply itself, marked `inlined` (rules look at the overwrite event, not at a call).
+                ra = self.recv_apply
+                from .core import inventory as inv
+                if any(self.fx.root_fn(s.fn) == ra["id"] for s in inv.whole_writes(self.fx, NS)):
+                    d = dict(ra)
+                    d["inlined"] = True
+                    return d
+                raise
+        return self._get("reset_node", find)
+
+    def reset_events(self, row, recv_root=("S", "recv")):
+        """the reset on a path of recv_apply: calls of reset_node, or — when it is inlined — whole overwrites of the copy"""
+        rn = self.reset_node
+        if not rn.get("inlined"):
+            return [e for e in row.events if e[0] == "call" and e[1] == rn["id"]]
+        return [e for e in row.events if e[0] == "write" and e[1] == recv_root and tuple(e[2]) == () and e[3][0] == "agg"]
 
     @property
     def set_versioned_value(self):
